@@ -35,6 +35,15 @@ pub fn resolve_align(
                     report,
                     ast_align.header_span)?,
 
+            // A failed assertion cannot be guessed away:
+            // once guessing is over, it is an error
+            expr::Value::FailedConstraint(msg)
+                if ctx.is_last_iteration =>
+            {
+                report.message(msg);
+                return Err(());
+            }
+
             _ => 0,
         }
     };
